@@ -551,6 +551,34 @@ type concInner struct {
 }
 type concIn2 struct{ Z []int }
 
+// concFolder implements Folder (emits an object) and is used inline and as a plain field.
+type concFolder struct{ N int }
+
+func (f concFolder) Fold(v structform.ExtVisitor) error {
+	if err := v.OnObjectStart(2, structform.AnyType); err != nil {
+		return err
+	}
+	for i, k := range []string{"fn", "fm"} {
+		if err := v.OnKey(k); err != nil {
+			return err
+		}
+		runtime.Gosched() // widen the window in which another goroutine may interfere
+		if err := v.OnInt(f.N + i); err != nil {
+			return err
+		}
+	}
+	return v.OnObjectFinished()
+}
+
+type concU struct {
+	ID int                    `struct:"id"`
+	F  concFolder             `struct:",inline"`
+	G  concFolder             `struct:"g"`
+	Z  ZeroT                  `struct:"z,omitempty"`
+	P  *ZeroP                 `struct:"p,omitempty"`
+	M  map[string]interface{} `struct:",inline"`
+}
+
 // runConc runs sub.n goroutines; each runs sub.rounds rounds of
 // fold -> encode -> parse -> unfold on its OWN new instances over SHARED input
 // values and shared Go types (so first-use compilation of folders/unfolders
@@ -564,6 +592,8 @@ func runConc(c *Case, tr *Trace) {
 		map[string]interface{}{"m": []interface{}{1.5, nil, true}, "n": map[string]interface{}{"o": "p"}},
 		[]concInner{{1, 1}, {2, 2}},
 		&concT{A: "ptr"},
+		concU{ID: 1, F: concFolder{10}, G: concFolder{20}, Z: ZeroT{1}, P: &ZeroP{2}, M: map[string]interface{}{"mk": "mv"}},
+		[]concU{{ID: 2, F: concFolder{30}}, {ID: 3, G: concFolder{40}}},
 	}
 	fmts := []string{"json", "ubjson", "cborl"}
 	var aliveMu sync.Mutex
@@ -581,6 +611,10 @@ func runConc(c *Case, tr *Trace) {
 		out := reflect.New(reflect.TypeOf(v))
 		if reflect.TypeOf(v).Kind() == reflect.Ptr {
 			out = reflect.New(reflect.TypeOf(v).Elem())
+		}
+		switch v.(type) {
+		case concU, []concU:
+			out = reflect.New(ifaceType) // custom folders have no unfolding counterpart: read back as generic data
 		}
 		un, err := gotype.NewUnfolder(out.Interface())
 		if err != nil {
